@@ -20,6 +20,7 @@
                              StopIteration events prompt again
                                                            -> C05_continue_partial (hyp. not_gen_frame) *)
 From NL Require Import Bdb.Model Bdb.Basics Bdb.Filters Bdb.StepMode Bdb.ContinueMode Bdb.NextMode Bdb.NextProps.
+From NL Require Bdb.Options.
 Open Scope list_scope.
 Open Scope Z_scope.
 
@@ -173,6 +174,19 @@ Theorem C05_next_after_return : forall c pre ei ej post p,
   In (S (List.length pre)) (map p_idx (prompts c (all Next) (pre ++ ei :: ej :: post))).
 Proof. exact next_after_return. Qed.
 
+(** the options in force for a run (the RunArg the child receives): each of trace_threads / trace_modules
+    is the last value explicitly given to reset(), else the constructor's value (Bdb/Options.v; compared with
+    the real Nextline object on random option histories on every run) *)
+Theorem C05_options_in_force : forall (hist : list (option bool)) (init : bool),
+  Bdb.Options.in_force init hist =
+  match Bdb.Options.last_given hist with Some v => v | None => init end.
+Proof. exact (@Bdb.Options.opts_last_given bool). Qed.
+
+Example C05_options_example :
+  Bdb.Options.in_force true [None; Some false; None] = false /\
+  Bdb.Options.in_force false [Some true; Some false; Some true; None] = true.
+Proof. vm_compute. auto. Qed.
+
 (** non-vacuity: def f(a): b = a + 1; return b / x = f(1) -- all-step prompts at every line,
     all-next not inside f, all-continue once *)
 Definition ex_stream : list event :=
@@ -217,6 +231,7 @@ Print Assumptions C05_callable_refuted.
 Print Assumptions C05_next_refuted.
 Print Assumptions C05_continue_refuted.
 Print Assumptions C05_step.
+Print Assumptions C05_options_in_force.
 Print Assumptions C05_continue_partial.
 Print Assumptions C05_next_partial.
 Print Assumptions C05_next_nothing_inside_calls.
